@@ -142,3 +142,20 @@ Definition c16_check (c : c16_case) : bool :=
           end
       end
   end.
+
+(* diagnostics: index of the first call of a case on which model and implementation differ *)
+Fixpoint first_bad_step (w : world) (ss : list c16_step) (i : N) : option N :=
+  match ss with
+  | [] => None
+  | s :: ss' => match step_check w s with Some w' => first_bad_step w' ss' (i + 1) | None => Some i end
+  end.
+Definition c16_first_bad (c : c16_case) : option N :=
+  match c with
+  | CWorld funds template amount addresses limit top_up mwl admin members0 num0 mlimit built bal0 steps final =>
+      match instantiate AIRDROP funds template amount addresses limit, must_pay funds NATIVE with
+      | Ok (st, fee_msgs), Ok paid =>
+          first_bad_step (mkWorld st (paid - sum_out fee_msgs + top_up) (if mwl then Some CWL_ID else None) CWL_ID
+                                  (mkCwl admin members0 num0 mlimit) []) steps 0
+      | _, _ => None
+      end
+  end.
